@@ -1,0 +1,16 @@
+//go:build verif
+
+// Contracts for govc (comment-only file; see /verif/DESIGN.md section 3).
+package config
+
+//@ pred pubok(p *Public) := p != nil && p.ECDSA != nil && p.ElGamal != nil && pkok(p.Paillier) && pedok(p.Pedersen)
+
+// All four components of a party's public data enter the transcript, each once, in this order (C09, C19):
+// the ECDSA share, the ElGamal key, the Paillier modulus and the Pedersen parameters.
+//@ func (*Public).WriteTo
+//@   nopanic[C05]
+//@   requires w != nil && (p != nil ==> pubok(p))
+//@   let w1 = wcat(wcat(old(wlog(w)), benc(p.ECDSA)), benc(p.ElGamal))
+//@   ensures[C09,C19] (err == nil && p != nil) ==> called(WriteTo) && callcount(Write) == 2 && callcount(WriteTo) == 2
+//@   assert_at[C09,C19] WriteTo "p.Paillier.WriteTo(w)": wlog(w) == wcat(wcat(old(wlog(w)), benc(p.ECDSA)), benc(p.ElGamal))
+//@   assert_at[C09,C19] WriteTo "p.Pedersen.WriteTo(w)": wlog(w) == wcat(wcat(wcat(old(wlog(w)), benc(p.ECDSA)), benc(p.ElGamal)), nbytes(p.Paillier.n.Modulus))
